@@ -102,6 +102,10 @@ func (o *Options) ServerOptions() []string {
 		sargv = append(sargv, argstr)
 	}
 
+	if o.DeleteMode() {
+		sargv = append(sargv, "--delete")
+	}
+
 	// -D above turns on both --devices and --specials on the remote side;
 	// correct that if only one of them is wanted (as rsync 3.x does).
 	if o.PreserveSpecials() && !o.PreserveDevices() {
